@@ -715,6 +715,10 @@ func (w *World) openTunnel(spec TunnelSpec, fatal bool) bool {
 		md.Set("x-verif-key", spec.Key)
 	}
 	ctx := metadata.NewOutgoingContext(context.Background(), md)
+	if spec.CtxVal != "" {
+		// a value a client interceptor stored in the context of the tunnel-opening call
+		ctx = context.WithValue(ctx, InterceptorKey{}, "cli-"+spec.CtxVal)
+	}
 	t.openCtx, t.cancel = context.WithCancel(ctx)
 	for _, ev := range w.c.Events {
 		if ev.Kind == "expire_open" && ev.Target == idx {
@@ -1462,8 +1466,15 @@ func (w *World) recordCallIdentity(r *rpcState, rec *OpRec, ctx context.Context)
 		if md, ok := grpctunnel.TunnelMetadataFromOutgoingContext(ctx); ok {
 			rec.Extra["ctx_tunnel_md"] = mdString(md)
 			md.Set("x-mutated", "by-caller")
+			for k, v := range md {
+				if len(v) > 0 && k != "x-mutated" {
+					v[0] = "MUTATED-IN-PLACE"
+				}
+			}
 			md2, _ := grpctunnel.TunnelMetadataFromOutgoingContext(ctx)
 			rec.Extra["ctx_tunnel_md_after_mut"] = mdString(md2)
+		} else {
+			rec.Extra["ctx_tunnel_md"] = "<absent>"
 		}
 	}
 	if r.spec.ChanOpt {
@@ -1637,10 +1648,24 @@ func (w *World) logInvocation(inst *Instance, method string, ctx context.Context
 	inv.HasTunnelMD = ok
 	inv.TunnelMD = cloneMD(tmd)
 	if r != nil && r.spec.Access && ok {
+		// mutate what the accessor returned in every way a caller might: new key, replaced value list, in-place edit, delete
 		tmd.Set("x-mutated", "by-handler")
-		tmd["x-verif-tunnel"] = []string{"mutated"}
+		for k, v := range tmd {
+			if len(v) > 0 && k != "x-mutated" {
+				v[0] = "MUTATED-IN-PLACE"
+			}
+		}
+		delete(tmd, "x-verif-tunnel")
 		tmd2, _ := grpctunnel.TunnelMetadataFromIncomingContext(ctx)
 		inv.TunnelMDAfterMut = cloneMD(tmd2)
+		// the RPC's own request metadata, likewise
+		if md2, ok2 := metadata.FromIncomingContext(ctx); ok2 {
+			for _, v := range md2 {
+				if len(v) > 0 {
+					v[0] = "MUTATED-IN-PLACE"
+				}
+			}
+		}
 	}
 	w.mu.Lock()
 	inv.Step = w.step
